@@ -2,7 +2,7 @@
 From Coq Require Import List ZArith NArith Bool.
 From Scalibr Require Import Semantic.Cmp Semantic.Bytes Semantic.Cases.
 From Scalibr Require Import Semantic.Semver Semantic.Nuget Semantic.Cran Semantic.Rubygems Semantic.Debian Semantic.Redhat.
-From Scalibr Require Import Semantic.Pypi Semantic.PypiParse Semantic.Packagist Semantic.Alpine Semantic.Maven.
+From Scalibr Require Import Semantic.Pypi Semantic.PypiParse Semantic.Packagist Semantic.Alpine Semantic.AlpineParse Semantic.Maven.
 Import ListNotations.
 
 Definition all_true {V} (_ : V) : bool := true.
@@ -48,13 +48,13 @@ Definition eco_pypi : ecosys pypi := {|
 
 (* Packagist: transitivity only claimed without '#...' qualifiers (packagist_hash_eq_not_transitive_refuted) *)
 Definition eco_packagist : ecosys packagist := {|
-  ec_parse := None; ec_cmp := cmp_packagist; ec_valid := valid_packagist;
+  ec_parse := Some parse_packagist; ec_cmp := cmp_packagist; ec_valid := valid_packagist;
   ec_rel := all_true3;
   ec_total_dom := all_true; ec_eqb := packagist_eqb |}.
 
 (* Alpine: transitivity only claimed without multi-digit zero components after the first (alpine_eq_not_transitive_refuted) *)
 Definition eco_alpine : ecosys alpine := {|
-  ec_parse := None; ec_cmp := cmp_alpine; ec_valid := valid_alpine;
+  ec_parse := Some parse_alpine; ec_cmp := cmp_alpine; ec_valid := valid_alpine;
   ec_rel := all_true3;
   ec_total_dom := alpine_wf; ec_eqb := alpine_eqb |}.
 
